@@ -182,18 +182,20 @@ func TestC08Growth(t *testing.T) {
 	}
 	for _, name := range formatsUnderTest() {
 		f := Formats[name]
-		t.Run(name, func(t *testing.T) {
-			rapid.Check(t, func(rt *rapid.T) {
-				c := genGrowthCase(rt, f, packets)
-				st, err := runC08(c)
-				if st == nil {
-					st = &hostileStats{}
-				}
-				pbt.Count("C08", "packets", int64(st.Packets))
-				pbt.Check(rt, "C08", "growth-"+name, c, st.LongRun >= 1000,
-					[]string{"format:" + name, "mode:mem", "grow:" + c.Ops[len(c.Ops)-1].Kind}, func() error { return err })
+		for _, kind := range []string{"mid", "start", "single", "raw"} {
+			t.Run(name+"/"+kind, func(t *testing.T) {
+				rapid.Check(t, func(rt *rapid.T) {
+					c := genGrowthCase(rt, f, packets, kind)
+					st, err := runC08(c)
+					if st == nil {
+						st = &hostileStats{}
+					}
+					pbt.Count("C08", "packets", int64(st.Packets))
+					pbt.Check(rt, "C08", "growth-"+name, c, st.LongRun >= 1000,
+						[]string{"format:" + name, "mode:mem", "grow:" + kind}, func() error { return err })
+				})
 			})
-		})
+		}
 	}
 }
 
